@@ -14,6 +14,43 @@ BOUNDED_LAST = ("len", "count", "capacity", "is_empty", "remaining", "size_hint"
 CONTAINER_WRITES = ("push", "push_back", "push_front", "insert", "extend", "append", "or_insert", "or_insert_with", "extend_from_slice", "resize", "fill")
 
 
+def _self_stepped(b, du, l, depth=0):
+    """is local l (or the variable it copies) updated as x = x + const somewhere in the body"""
+    seen = set()
+    work = [l]
+    while work:
+        x = work.pop()
+        if x in seen:
+            continue
+        seen.add(x)
+        for d in du.defs.get(x, []):
+            if d[0] != "assign":
+                continue
+            rv = d[3]["rv"]
+            if rv["k"] in ("use", "cast"):
+                pl = rv["a"].get("cp") or rv["a"].get("mv")
+                if pl is not None:
+                    if pl["p"]:
+                        # field .0 of an AddWithOverflow pair
+                        for d2 in du.defs.get(pl["l"], []):
+                            if d2[0] == "assign" and d2[3]["rv"]["k"] == "binop" and d2[3]["rv"]["op"] in ("AddWithOverflow", "Add"):
+                                a_ = d2[3]["rv"]["a"]; b_ = d2[3]["rv"]["b"]
+                                apl = a_.get("cp") or a_.get("mv")
+                                if "c" in b_ and apl is not None:
+                                    if apl["l"] in seen or apl["l"] == l:
+                                        return True
+                                    work.append(apl["l"])
+                    else:
+                        work.append(pl["l"])
+            elif rv["k"] == "binop" and rv["op"] in ("Add", "AddWithOverflow"):
+                apl = rv["a"].get("cp") or rv["a"].get("mv")
+                if "c" in rv["b"] and apl is not None:
+                    if apl["l"] in seen:
+                        return True
+                    work.append(apl["l"])
+    return False
+
+
 def _is_int_ty(ty):
     t = ty.replace("&", "").replace("mut ", "").strip()
     return t in ("usize", "u64", "u32", "u16", "u8", "i64", "i32", "isize", "i16", "i8", "u128", "i128")
@@ -188,6 +225,13 @@ class Taint:
                             continue   # a test against zero is a lower bound, not an upper bound
                         if ta != tb:
                             du = du or DefUse(b)
+                            # the other side must be a bound, not a counter that is stepped towards the tainted value
+                            # (`retry_num < timeout` with retry_num += 1 checks nothing about timeout)
+                            if "c" not in other:
+                                osl = du.slice_operand(other, deep=False)
+                                opl = other.get("mv") or other.get("cp")
+                                if (osl.binops & {"Add", "AddWithOverflow"}) and opl is not None and _self_stepped(b, du, opl["l"]):
+                                    continue
                             sl = du.slice_operand(s["rv"]["a"] if ta else s["rv"]["b"])
                             blk_set = {l for l in sl.locals if l in tl}
                             if blk_set - self.blocked[b.path]:
